@@ -177,7 +177,9 @@ def classify(x, ref, var):
     loop writes at step 0 AFTER `if (renormalize > 0 && step % renormalize == 0) integrateAndNormalize()`, for a start file"""
     sig = {"oracle": "cadence", "dataset": x.split(" ")[0]}
     if sig["dataset"] == "/PhaseSpace/data" and " record of step 0 " in x and (ref["h5save"] == 0) != (var["h5save"] == 0) \
-            and ref["renorm"] > 0 and "-i" in (ref.get("extra") or []):
+            and ref["renorm"] > 0 and any(o in (ref.get("extra") or []) for o in ("-i", "--InitialDistZoom", "-P")):
+        # (family st3drv) the same situation without a start file: a built-in Gaussian whose extent / zoom is not the default is
+        # normalised to the last bit only by that first renormalisation (observed: 1 ulp in the tail cells, zoom 0.25)
         sig["clause"] = "initial-phase-space-vs-step0-renormalisation"
     return sig
 
@@ -414,7 +416,7 @@ def replay(ctx, rp):
     def cfg_of(a):
         g = lambda o, d=None: a[a.index(o) + 1] if o in a else d
         return dict(N=int(g("-N")), T=int(float(g("-T"))), h5save=int(g("--SavePhaseSpace")), renorm=int(g("--RenormalizeCharge")),
-                    extra=["-i"] if "-i" in a else [], tracking=g("--tracking"))
+                    extra=[o for o in ("-i", "--InitialDistZoom", "-P") if o in a], tracking=g("--tracking"))
     ca, cb = cfg_of(case["reference"]), cfg_of(case["variant"])
     ha, hb = dc.h5read(tg, os.path.join(wd, "ref.h5")), dc.h5read(tg, os.path.join(wd, "var.h5"))
     if ha is None or hb is None:
